@@ -8,6 +8,7 @@ namespace, after seeded delays that may exceed the call() timeout;
 disconnects and reconnects in between."""
 from sim import sio
 from sim.world import make_world
+from sim.choices import derive
 from sim.util import typed_eq, wire_norm, shape_call_result, gen_value
 from .common import V, trepr, REAL_SERVER, STUBS
 from .scene import Scene
@@ -117,13 +118,20 @@ def _run(case, cfg, w):
              'ack_other_peer': 0, 'ack_other_ns': 0, 'ack_id0': 0,
              'call_timeout_raced': 0}
 
+    cb_inv = {}
+
     def make_cb(tag):
         coroutine = cfg['coro_cb'] and w.mode == 'async'
         def maybe_raise():
             # fault: the application's callback fails (at most once is still
             # the rule: a repeated ACK must not run it again)
-            if cfg.get('cb_raise') and w.choices.chance(
-                    'faults', cfg['cb_raise'], 8, 'cb_raise'):
+            n_inv = cb_inv.get(tag, 0)
+            cb_inv[tag] = n_inv + 1
+            if cfg.get('cb_raise') and (
+                    derive(case['seed'], 'cb_raise', repr(tag), n_inv) % 8
+                    < cfg['cb_raise'] if cfg.get('raise_by_content') else
+                    w.choices.chance('faults', cfg['cb_raise'], 8,
+                                     'cb_raise')):
                 w.rec.count('fault.callback_raise')
                 raise RuntimeError('injected callback failure')
         if coroutine:
